@@ -12,7 +12,8 @@
 (*   - by IndexStoreTrace.tla, which replays the storage operations recorded    *)
 (*     from the real code through exactly these actions.                        *)
 (*                                                                             *)
-(* File names are tuples: <<"toc",g>>, <<"tmptoc",g>>, <<"seg",s,ext>>.         *)
+(* File names are tuples: <<"toc",g>>, <<"tmptoc",g,x>> (x: unique per writer -  *)
+(* the real name carries a timestamp), <<"seg",s,ext>>.                          *)
 EXTENDS Naturals, Integers, Sequences, FiniteSets, FiniteSetsExt, TLC
 
 CONSTANTS Writers, Readers, Keys, MaxGen, MaxSeg, NoOne
@@ -20,7 +21,8 @@ CONSTANTS Writers, Readers, Keys, MaxGen, MaxSeg, NoOne
 VARIABLES
   files,     \* file name -> "open" | "closed"   (present in the directory)
   toc,       \* gen -> [segs: Seq([id, n, del, compound])]  content of each TOC ever committed
-  content,   \* gen -> set of live keys: the logical state each commit established
+  content,   \* gen -> set of live documents <<key, uid>>: the logical state each commit established
+             \* (key and uid are the values of two unique fields; uid = 0: field not supplied)
   lock,      \* holder of the write lock, or NoOne
   w,         \* writer -> record (see WInit)
   r,         \* reader -> record (see RInit)
@@ -68,13 +70,29 @@ WReadToc(p, g) == /\ G_ReadToc(p, g)
                   /\ w' = [w EXCEPT ![p].pc = "writing", ![p].gen = g]
                   /\ UNCHANGED <<files, toc, content, lock, r, nseg, clean>>
 
-\* document-level calls buffered by the writer (from the API, not from storage)
+\* document-level calls buffered by the writer (from the API, not from storage).
+\* Deletions act on the documents committed in the generation the writer read.
+Base(p) == content[w[p].gen]
 WAdd(p, k) == /\ w[p].pc = "writing"
-              /\ w' = [w EXCEPT ![p].adds = @ \cup {k}]
+              /\ w' = [w EXCEPT ![p].adds = @ \cup {<<k, 0>>}]
               /\ UNCHANGED <<files, toc, content, lock, r, nseg, clean>>
 WDel(p, k) == /\ w[p].pc = "writing"
-              /\ w' = [w EXCEPT ![p].dels = @ \cup {k}]
+              /\ w' = [w EXCEPT ![p].dels = @ \cup {d \in Base(p) : d[1] = k}]
               /\ UNCHANGED <<files, toc, content, lock, r, nseg, clean>>
+\* update_document: delete the committed documents carrying the same value in ANY unique
+\* field, then add (C07)
+WUpdate(p, k, u) ==
+  /\ w[p].pc = "writing"
+  /\ w' = [w EXCEPT ![p].dels = @ \cup {d \in Base(p) : d[1] = k \/ (u # 0 /\ d[2] = u)},
+                    ![p].adds = @ \cup {<<k, u>>}]
+  /\ UNCHANGED <<files, toc, content, lock, r, nseg, clean>>
+
+\* what delete_by_term / delete_by_query must return: the selected documents that are still
+\* live for this writer (deletions made earlier by the same writer no longer count)
+DeleteCount(p, K) == Cardinality({d \in Base(p) \ w[p].dels : d[1] \in K})
+WDelMany(p, K) == /\ w[p].pc = "writing"
+                  /\ w' = [w EXCEPT ![p].dels = @ \cup {d \in Base(p) : d[1] \in K}]
+                  /\ UNCHANGED <<files, toc, content, lock, r, nseg, clean>>
 
 \* new segment files are created under the lock, under names no TOC refers to
 G_Create(p, f) == /\ lock = p /\ w[p].pc = "writing" /\ IsSeg(f) /\ f \notin DOMAIN files
@@ -103,10 +121,11 @@ WDeletePart(p, f) == /\ G_DeletePart(p, f)
                      /\ files' = Drop(files, f)
                      /\ UNCHANGED <<toc, content, lock, w, r, nseg, clean>>
 
-G_TocTmpCreate(p, g) == lock = p /\ w[p].pc = "writing" /\ g = w[p].gen + 1 /\ <<"tmptoc", g>> \notin DOMAIN files
-WTocTmpCreate(p, g) == /\ G_TocTmpCreate(p, g)
-                       /\ files' = Put(files, <<"tmptoc", g>>, "open")
-                       /\ w' = [w EXCEPT ![p].pc = "toc", ![p].mine = @ \cup {<<"tmptoc", g>>}]
+G_TocTmpCreate(p, f) == /\ lock = p /\ w[p].pc = "writing" /\ f[1] = "tmptoc" /\ f[2] = w[p].gen + 1
+                        /\ f \notin DOMAIN files
+WTocTmpCreate(p, f) == /\ G_TocTmpCreate(p, f)
+                       /\ files' = Put(files, f, "open")
+                       /\ w' = [w EXCEPT ![p].pc = "toc", ![p].mine = @ \cup {f}]
                        /\ UNCHANGED <<toc, content, lock, r, nseg, clean>>
 
 \* THE COMMIT POINT.  t is the content of the new TOC.
@@ -115,15 +134,17 @@ Carried(old, t) ==      \* a segment kept by the new TOC keeps its size and neve
   \A i \in DOMAIN old.segs : \A j \in DOMAIN t.segs :
      old.segs[i].id = t.segs[j].id => /\ t.segs[j].n = old.segs[i].n
                                       /\ old.segs[i].del \subseteq t.segs[j].del
-G_TocRename(p, g, t) ==
+G_TocRename(p, src, g, t) ==
   /\ lock = p /\ w[p].pc = "toc"
-  /\ <<"tmptoc", g>> \in DOMAIN files /\ files[<<"tmptoc", g>>] = "closed"
+  /\ src \in w[p].mine /\ src[1] = "tmptoc" /\ src[2] = g
+  /\ src \in DOMAIN files /\ files[src] = "closed"        \* the TOC is complete before it gets its name
   /\ g = Latest + 1 /\ g = w[p].gen + 1                    \* one generation forward, from the newest
   /\ \A i \in DOMAIN t.segs : SegComplete(t.segs[i])        \* nothing half-written is referenced
   /\ Carried(toc[w[p].gen], t)
   /\ LiveCount(t) = Cardinality(NewContent(p))              \* the TOC accounts for every live document
-WTocRename(p, g, t) == /\ G_TocRename(p, g, t)
-                       /\ files' = Put(Drop(files, <<"tmptoc", g>>), <<"toc", g>>, "closed")
+WTocRename(p, src, g, t) ==
+                       /\ G_TocRename(p, src, g, t)
+                       /\ files' = Put(Drop(files, src), <<"toc", g>>, "closed")
                        /\ toc' = Put(toc, g, t)
                        /\ content' = Put(content, g, NewContent(p))
                        /\ w' = [w EXCEPT ![p].pc = "committed", ![p].gen = g]
@@ -152,10 +173,11 @@ Crash(p) == /\ w[p].pc \notin {"idle", "dead"}
             /\ UNCHANGED <<files, toc, content, r, nseg>>
 
 \* ---- reader ----------------------------------------------------------------------
-RInit == [pc |-> "idle", gen |-> -1, want |-> -1, held |-> {}, failed |-> FALSE]
+RInit == [pc |-> "idle", gen |-> -1, want |-> -1, held |-> {}, failed |-> FALSE, seen |-> {}]
 
 \* list the directory: remembers the newest generation it saw
-RList(q) == /\ r' = [r EXCEPT ![q].want = Latest, ![q].pc = IF @ = "idle" THEN "listing" ELSE @]
+RList(q) == /\ r' = [r EXCEPT ![q].want = Latest, ![q].pc = IF @ = "idle" THEN "listing" ELSE @,
+                                ![q].seen = DOMAIN files]
             /\ UNCHANGED <<files, toc, content, lock, w, nseg, clean>>
 
 \* open the TOC seen by the listing (it may have been cleaned away meanwhile: retry)
@@ -165,7 +187,8 @@ ROpenToc(q, g) == /\ G_ROpenToc(q, g)
                   /\ UNCHANGED <<files, toc, content, lock, w, nseg, clean>>
 G_ROpenFail(q, f) == f \notin DOMAIN files
 ROpenFail(q, f) == /\ G_ROpenFail(q, f)
-                   /\ r' = [r EXCEPT ![q].failed = TRUE]
+                   \* a genuine race with a cleaning writer: the file was there when q listed the directory
+                   /\ r' = [r EXCEPT ![q].failed = @ \/ (f \in r[q].seen)]
                    /\ UNCHANGED <<files, toc, content, lock, w, nseg, clean>>
 
 \* open a segment file: only segments of the reader's own generation, only complete files
@@ -241,7 +264,7 @@ Program(s, g, adds, pol) ==
       shut == <<[a |-> "close", f |-> Parts(s)[1]], [a |-> "close", f |-> Parts(s)[2]]>>
       pack == <<[a |-> "create", f |-> <<"seg", s, "seg">>], [a |-> "close", f |-> <<"seg", s, "seg">>],
                 [a |-> "delpart", f |-> Parts(s)[1]], [a |-> "delpart", f |-> Parts(s)[2]]>>
-      commit == <<[a |-> "tmptoc", g |-> g], [a |-> "close", f |-> <<"tmptoc", g>>],
+      commit == <<[a |-> "tmptoc", g |-> g], [a |-> "closetmp", g |-> g],
                   [a |-> "rename", g |-> g, s |-> s], [a |-> "clean"], [a |-> "unlock"]>>
   IN IF pol = "cancel" THEN open \o shut \o <<[a |-> "unlock"]>>
      ELSE IF adds = {} /\ pol = "append" THEN open \o shut \o commit     \* nothing added: no new segment
@@ -251,7 +274,7 @@ Program(s, g, adds, pol) ==
 WPlan(p) ==
   /\ w[p].pc = "writing" /\ todo[p] = <<>> /\ nseg < MaxSeg /\ w[p].gen < MaxGen
   /\ \E dels \in SUBSET content[w[p].gen] :
-       \E adds \in SUBSET (Keys \ (content[w[p].gen] \ dels)) :
+       \E adds \in SUBSET ({<<k, 0>> : k \in Keys} \ (content[w[p].gen] \ dels)) :
          \E pol \in {"append", "optimize", "cancel"} :
            /\ nseg' = nseg + 1
            /\ w' = [w EXCEPT ![p].adds = adds, ![p].dels = dels]
@@ -269,16 +292,18 @@ WRun(p) ==
      IN CASE st.a = "create" -> WCreate(p, st.f) /\ todo' = [todo EXCEPT ![p] = rest]
           [] st.a = "close" -> WClose(p, st.f) /\ todo' = [todo EXCEPT ![p] = rest]
           [] st.a = "delpart" -> WDeletePart(p, st.f) /\ todo' = [todo EXCEPT ![p] = rest]
-          [] st.a = "tmptoc" -> WTocTmpCreate(p, st.g) /\ todo' = [todo EXCEPT ![p] = rest]
+          [] st.a = "tmptoc" -> WTocTmpCreate(p, <<"tmptoc", st.g, p>>) /\ todo' = [todo EXCEPT ![p] = rest]
+          [] st.a = "closetmp" -> WClose(p, <<"tmptoc", st.g, p>>) /\ todo' = [todo EXCEPT ![p] = rest]
           [] st.a = "rename" ->
-               /\ WTocRename(p, st.g, NewToc(p, st.s, w[p].adds, w[p].dels, PolOf(p)))
+               /\ WTocRename(p, <<"tmptoc", st.g, p>>, st.g, NewToc(p, st.s, w[p].adds, w[p].dels, PolOf(p)))
                /\ todo' = [todo EXCEPT ![p] = rest]
           [] st.a = "clean" ->
                IF Unref # {} THEN (\E f \in Unref : WCleanDelete(p, f)) /\ todo' = todo
                ELSE UNCHANGED vars /\ todo' = [todo EXCEPT ![p] = rest]
           [] st.a = "unlock" -> WUnlock(p) /\ todo' = [todo EXCEPT ![p] = <<>>]
 
-WStart(p) == \/ WLock(p) /\ todo' = todo
+\* (the model stops opening writers at its bounds, so that every writer that gets the lock can finish)
+WStart(p) == \/ nseg < MaxSeg /\ Latest < MaxGen /\ WLock(p) /\ todo' = todo
              \/ WLockFail(p) /\ todo' = todo
              \/ (w[p].pc = "locked" /\ WReadToc(p, Latest) /\ todo' = todo)
 
@@ -305,7 +330,9 @@ Next == \/ \E p \in Writers : WStart(p) \/ WPlan(p) \/ WRun(p) \/ WCrash(p)
         \/ \E q \in Readers : RStart(q) \/ RToc(q) \/ RSeg(q) \/ RClose(q)
 
 Spec == Init /\ [][Next]_allvars
-FairSpec == Spec /\ \A p \in Writers : WF_allvars(WRun(p)) /\ WF_allvars(WStart(p))
+\* a writer that was opened is eventually committed or cancelled by its user, and keeps running
+FairSpec == Spec /\ \A p \in Writers : WF_allvars(WRun(p)) /\ WF_allvars(WPlan(p))
+                                        /\ WF_allvars(w[p].pc = "locked" /\ WReadToc(p, Latest) /\ todo' = todo)
 
 \* C03: a reader that finished opening serves exactly its generation, and every file it
 \* needs is held open (so later clean-ups cannot take it away)
